@@ -237,5 +237,11 @@ func validateRaw(msg messages.Builder, d []byte, strict bool) error {
 		)
 	}
 
+	// The CheckSum field closes the message. A field with the same tag in front of the
+	// real trailer (the damaged tag of another field) must not be taken for it.
+	if !bytes.HasSuffix(d, bytes.Join([][]byte{fix.Delimiter, cs.ToBytes(), fix.Delimiter}, nil)) {
+		return fmt.Errorf("the checksum field is not the last field of the message")
+	}
+
 	return nil
 }
